@@ -316,15 +316,21 @@ def generate(tier, rng):
 # ------------------------------------------------------------------------------------------------
 
 def relevant(prop, c):
-    return prop in ('C10', 'C11')
+    return prop in ('C10', 'C11', 'C02')
 
 
 def project(prop, c, out):
-    if prop not in ('C10', 'C11'):
+    if prop not in ('C10', 'C11', 'C02'):
         return None
     if out.get('incomplete'):
         return {'incomplete': True}
     r = out['result']
+    if prop == 'C02':
+        # C02 under suspension: which ids are answered, in which order, and which methods ran how often
+        doc = D._decoded(out) if r['k'] == 'reply' else None
+        ids = [enc(x.get('id')) if isinstance(x, dict) else None for x in D.responses_of(doc)] if doc is not None else None
+        return {'k': r['k'], 'array': isinstance(doc, list), 'ids': ids,
+                'exec': sorted(json.dumps(x, sort_keys=True) for x in out['log'] if x.get('ev', {}).get('e') == 'exec')}
     log = out['log']
     if c.get('single_or_rejected'):
         # a single request has no batch scheduling: compare the result and the per-element events only
@@ -342,7 +348,7 @@ def label(c, mo):
 
 def oracle(prop, c, out):
     f = []
-    if prop not in ('C10',) or 'elements' not in out:
+    if prop not in ('C10', 'C02', 'C11') or 'elements' not in out:
         return f
 
     def fail(key, what, expected=None):
@@ -359,15 +365,22 @@ def oracle(prop, c, out):
     else:
         doc = D._decoded(out) if r['k'] == 'reply' else None
         if enc(doc) != enc(want_docs):
-            fail('mixed-up-responses', 'the response array is not the per-element responses in request order, each with its own id', enc(want_docs))
+            fail('mixed-up-responses' if prop != 'C11' else 'twin-diff:async-batch-order',
+                 'the response array is not the per-element responses in request order, each with its own id'
+                 + (' (which is what the synchronous dispatcher answers)' if prop == 'C11' else ''), enc(want_docs))
+    if prop == 'C11':
+        return f
     # every method ran exactly once (per element: same events as alone)
     for i, ref in enumerate(refs):
         mine = [x['ev'] for x in out['log'] if x['i'] == str(i) and 'ev' in x]
         alone = [x['ev'] for x in ref['log'] if 'ev' in x]
+        if prop == 'C02':
+            mine = [e for e in mine if e['e'] == 'exec']
+            alone = [e for e in alone if e['e'] == 'exec']
         if mine != alone:
             fail('element-events', f'element {i} did not run exactly as it does alone (each method / middleware / handler once)', alone)
             break
-    if not c['concurrent']:
+    if not c['concurrent'] and prop == 'C10':
         # no two elements in flight at the same time, request order
         firsts, lasts = {}, {}
         for pos, x in enumerate(out['log']):
